@@ -11,6 +11,7 @@ package chainsim
 import (
 	"fmt"
 	"sort"
+	"strings"
 	"time"
 
 	"cosmossdk.io/math"
@@ -412,7 +413,7 @@ func (s *Sim) opC21Params() {
 			return testkeeper.SimulateParamChange(ctx, s.K.ParamsKeeper, rewardstypes.ModuleName, string(rewardstypes.KeyLeftoverBurnRate), "\""+v+"\"")
 		})
 		r.Op("gov_param", c21Outcome(res))
-		r.Logf("gov: LeftoverBurnRate=%s: %s", v, short(res.Err))
+		r.Logf("gov: LeftoverBurnRate=%s: %s", v, c21Short(res.Err))
 	case 1:
 		vals := []string{"0.05", "0.0", "0.1", "0.2", "0.013"}
 		v := vals[r.Draw("ops", len(vals))]
@@ -420,7 +421,7 @@ func (s *Sim) opC21Params() {
 			return testkeeper.SimulateParamChange(ctx, s.K.ParamsKeeper, rewardstypes.ModuleName, string(rewardstypes.KeyValidatorsSubscriptionParticipation), "\""+v+"\"")
 		})
 		r.Op("gov_param", c21Outcome(res))
-		r.Logf("gov: ValidatorsSubscriptionParticipation=%s: %s", v, short(res.Err))
+		r.Logf("gov: ValidatorsSubscriptionParticipation=%s: %s", v, c21Short(res.Err))
 	default:
 		vals := []string{"0.02", "0.0", "0.1", "0.25"}
 		v := vals[r.Draw("ops", len(vals))]
@@ -430,8 +431,23 @@ func (s *Sim) opC21Params() {
 			return s.K.Distribution.SetParams(ctx, p)
 		})
 		r.Op("gov_param", c21Outcome(res))
-		r.Logf("gov: CommunityTax=%s: %s", v, short(res.Err))
+		r.Logf("gov: CommunityTax=%s: %s", v, c21Short(res.Err))
 	}
+}
+
+// c21Short is short() without the attribute list of lava's errors (printed in map order).
+func c21Short(err error) string {
+	if err == nil {
+		return "ok"
+	}
+	e := err.Error()
+	if i := strings.Index(e, "{"); i >= 0 {
+		e = e[:i]
+	}
+	if len(e) > 90 {
+		e = e[:90]
+	}
+	return "ERR " + e
 }
 
 func c21Outcome(res *TxResult) string {
